@@ -5,7 +5,10 @@
 // on the duty objects the real attester.MergeDuties builds from a beacon node's answer covering
 // several slots, in which the same committee index has different lengths at different slots; and
 // (families "overlap", "merged-overlap") through calls for different slots that overlap on the one
-// service, as the scheduler's per-slot jobs do; prints the case for Check.C04.
+// service, as the scheduler's per-slot jobs do.  The service is built with a process concurrency of
+// 1 to 64 (main.go passes the number of cores; above 1 in two thirds of the cases) and, in half of the
+// cases, the signer's latency differs from account to account (family "split-sign": both).  Prints the
+// case for Check.C04.
 package c04
 
 import (
@@ -872,7 +875,7 @@ func containsU(xs []uint64, x uint64) bool {
 
 func TestC04(t *testing.T) {
 	col := NewCollector("C04", "Check.C04",
-		"one observed Attest call over a duty of 1-12 validators in 1-4 committees of different sizes (shuffled or sorted order), after earlier calls that mark a chosen subset as already attested, with chosen subsets account-less or unsigned; every 8th case: calls for 2-3 slots overlapping on the one service (a call waiting for its signatures, the beacon nodes or its accounts while the others run); non-trivial = at least one attestation is submitted (the assignment lookup is reached); distinct by full input text")
+		"one observed Attest call over a duty of 1-12 validators in 1-4 committees of different sizes (shuffled or sorted order), after earlier calls that mark a chosen subset as already attested, with chosen subsets account-less or unsigned; every 8th case: calls for 2-3 slots overlapping on the one service (a call waiting for its signatures, the beacon nodes or its accounts while the others run); the service's process concurrency is 1-64 and in half of the cases the signer's latency differs per account; non-trivial = at least one attestation is submitted (the assignment lookup is reached); distinct by full input text")
 	n := EnvInt("VERIF_N", 800)
 	thorough := os.Getenv("VERIF_TIER") == "thorough"
 	type item struct {
